@@ -246,7 +246,43 @@ func VerifC01_BatchLife() {
 	}
 }
 
+// VerifC01_Deposit: an attested inbound deposit (the real attestation handler,
+// run as the tally runs it: on a cached context committed only on success)
+// raises the token's supply by exactly the deposited amount, credits the
+// receiver with it, and leaves the escrow of pending outbound transfers alone.
+func VerifC01_Deposit() {
+	p := sym.Choice("p", c01MaxSends()+1)
+	env, _ := c01Setup(p)
+	env.UseRealHandler()
+	supply0 := env.Bank.Supply(vDenom)
+	rcv0 := env.Bank.Balance(vUserC, vDenom)
+	escrow0 := env.Bank.ModuleBalance(types.ModuleName, vDenom)
+	amt := sdkmath.NewIntFromBigInt(sym.BigInt("deposit", 200))
+	token := vErc20
+	if sym.Bool("unknown-token") {
+		token = vErc20B
+	}
+	claim := &types.MsgSendToPalomaClaim{EventNonce: 1, SkywayNonce: 1, EthBlockHeight: 10, TokenContract: token, Amount: amt,
+		EthereumSender: "0x4444444444444444444444444444444444444444", PalomaReceiver: vUserC.String(), Orchestrator: vUserA.String(), ChainReferenceId: vChain, CompassId: "compass-1"}
+	cctx, commit := env.Ctx.CacheContext()
+	err := env.K.AttestationHandler.Handle(cctx, types.Attestation{}, claim)
+	if err == nil {
+		commit()
+		sym.Reach("deposit-applied")
+		sym.Assert(token == vErc20, "deposit-only-for-registered-tokens")
+		sym.Assert(env.Bank.Supply(vDenom).Equal(supply0.Add(amt)), "deposit-raises-supply-by-exactly-the-amount")
+		sym.Assert(env.Bank.Balance(vUserC, vDenom).Equal(rcv0.Add(amt)), "deposit-credits-the-receiver-with-exactly-the-amount")
+	} else {
+		sym.Reach("deposit-refused")
+		sym.Assert(env.Bank.Supply(vDenom).Equal(supply0), "refused-deposit-leaves-supply-unchanged")
+		sym.Assert(env.Bank.Balance(vUserC, vDenom).Equal(rcv0), "refused-deposit-credits-nobody")
+	}
+	sym.Assert(env.Bank.ModuleBalance(types.ModuleName, vDenom).Equal(escrow0), "deposit-leaves-the-escrow-of-pending-transfers-alone")
+	c01CheckInvariant(env, "escrow-equals-pending-after-deposit")
+}
+
 var VerifEntries = map[string]func(){
+	"VerifC01_Deposit": VerifC01_Deposit,
 	"VerifC01_Send":      VerifC01_Send,
 	"VerifC01_Cancel":    VerifC01_Cancel,
 	"VerifC01_Build":     VerifC01_Build,
